@@ -4,3 +4,4 @@ DISPATCH = [('universe/u_dispatch.cc', ['VU_PART=%d' % i]) for i in range(1, 3)]
 INPUTS = [('universe/u_inputs.cc', [])]
 ATOMS = [('universe/u_atoms.cc', ['VU_PART=%d' % i]) for i in range(1, 4)]
 EQUIV = [('universe/u_equiv.cc', ['VU_PART=%d' % i]) for i in range(1, 5)]
+TRAITS = [('universe/u_traits.cc', ['VU_PART=%d' % i]) for i in range(1, 5)]
